@@ -411,6 +411,31 @@ def make_cases(ctx, rng, cd, witnesses, gdict):
         block = lit + b"\x00"
         bh = 1 | (2 << 1) | (len(block) << 3)
         add("F", MAGIC + bytes([0x00, 0x38]) + bh.to_bytes(3, "little") + block, "huf-overtake", cap=N + 64, flags="noasm" if j % 4 else "-")
+    # ... and the phase trick: one periodic bit pattern (period 11: 00000111111) over the whole area decodes as ONE 11-bit symbol per
+    # period from phase 0 and as FOUR symbols per period from phase 6 (table: 3 codes of 2 bits, one of 3, 4, 5 bits, 64 of 11 bits):
+    # the long stream starts at phase 6 (slow), a tiny stream above it at phase 0 (fast), so the fast one keeps its speed all the
+    # way down through its neighbour
+    Pbits = [0, 0, 0, 0, 0, 1, 1, 1, 1, 1, 1]
+    for j in range(6 if quick else 30):
+        L1 = rng.choice([3000, 10000, 10000, 30000])
+        N = rng.choice([40000, 120000, 120000])
+        w = [10, 10, 10, 9, 8, 7] + [1] * 63 + [0]
+        tree = bytes([127 + 69]) + bytes((w[i] << 4) | w[i + 1] for i in range(0, 70, 2))
+        top = L1 - 1
+        area = bytearray(L1 + 24)
+        for a_ in range(L1 + 24):
+            bb = 0
+            for jb in range(7, -1, -1):
+                g = (top - a_) * 8 + (7 - jb)
+                bb |= Pbits[g % 11] << jb
+            area[a_] = bb
+        area[top + 8] = 0x3F if j % 2 == 0 else rng.choice([0x3F, 0x1F, 0x7F, 0x01])
+        payload = tree + L1.to_bytes(2, "little") + (8).to_bytes(2, "little") + (8).to_bytes(2, "little") + bytes(area)
+        hv = 2 | (3 << 2) | (N << 4) | (len(payload) << 22)
+        block = hv.to_bytes(5, "little") + payload + b"\x00"
+        bh = 1 | (2 << 1) | (len(block) << 3)
+        add("F", MAGIC + bytes([0xA0]) + N.to_bytes(4, "little") + bh.to_bytes(3, "little") + block, "huf-overtake-phase", cap=N + 64,
+            flags="noasm" if j % 3 != 2 else "-")
     # (3) random bytes behind a valid magic / semi-structured random frames
     for i in range(160 if quick else 1500):
         r = rng.random()
